@@ -305,3 +305,118 @@ fn c07_discriminant_bounds() {
         }
     }
 }
+
+// ------------------------------------------------------------------------------------------------------------
+// C08: the message codec's own copies of the field primitives (MessageBufExt) obey the same wire-format contract as the
+// value codec's; this is the byte level underneath the field-sequence model used by the Verus unit core_messages.
+mod msg {
+    use super::super::{BufMutExt, MessageBufExt};
+    use crate::message::MessageDeserializeError;
+    use crate::message::MessageKind;
+    use bytes::BytesMut;
+
+    #[allow(dead_code)]
+    fn no_reserve_inner(_this: &mut BytesMut, _additional: usize, _allocate: bool) -> bool {
+        assert!(false);
+        true
+    }
+
+    // obligation: C08.msg_varint_u32_roundtrip | harness: c08_msg_varint_u32_roundtrip | kind: complete | bound: none (all 2^32 values) | tier: quick
+    #[kani::proof]
+    #[kani::stub(bytes::BytesMut::reserve_inner, no_reserve_inner)]
+    #[kani::unwind(7)]
+    fn c08_msg_varint_u32_roundtrip() {
+        let x: u32 = kani::any();
+        let mut buf = BytesMut::with_capacity(96);
+        buf.put_varint_u32_le(x);
+        let mut s: &[u8] = &buf[..];
+        match MessageBufExt::try_get_varint_u32_le(&mut s) {
+            Ok(y) => {
+                assert!(y == x);
+            }
+            Err(_) => {
+                assert!(false);
+            }
+        }
+        assert!(s.is_empty());
+    }
+
+    // obligation: C08.msg_get_varint_4 | harness: c08_msg_get_varint_4 | kind: complete | bound: none (slice lengths 0..=6 symbolic, reads at most 5 bytes) | tier: quick
+    #[kani::proof]
+    #[kani::unwind(8)]
+    fn c08_msg_get_varint_4() {
+        let data: [u8; 6] = kani::any();
+        let len: usize = kani::any();
+        kani::assume(len <= 6);
+        let mut s: &[u8] = &data[..len];
+        let r = MessageBufExt::try_get_varint_le::<4>(&mut s);
+        if len == 0 {
+            assert!(matches!(r, Err(MessageDeserializeError::UnexpectedEoi)));
+            return;
+        }
+        let first = data[0];
+        if first <= 251 {
+            match r {
+                Ok(b) => {
+                    assert!(b[0] == first && b[1] == 0 && b[2] == 0 && b[3] == 0);
+                }
+                Err(_) => {
+                    assert!(false);
+                }
+            }
+            assert!(s.len() == len - 1);
+        } else {
+            let k = (first - 251) as usize;
+            if len - 1 < k {
+                assert!(matches!(r, Err(MessageDeserializeError::UnexpectedEoi)));
+            } else {
+                match r {
+                    Ok(b) => {
+                        let mut i = 0;
+                        while i < 4 {
+                            if i < k {
+                                assert!(b[i] == data[1 + i]);
+                            } else {
+                                assert!(b[i] == 0);
+                            }
+                            i += 1;
+                        }
+                    }
+                    Err(_) => {
+                        assert!(false);
+                    }
+                }
+                assert!(s.len() == len - 1 - k);
+            }
+        }
+    }
+
+    // obligation: C08.msg_discriminant | harness: c08_msg_discriminant | kind: complete | bound: none (slice lengths 0..=2, all byte values) | tier: quick
+    #[kani::proof]
+    #[kani::unwind(4)]
+    fn c08_msg_discriminant() {
+        let data: [u8; 2] = kani::any();
+        let len: usize = kani::any();
+        kani::assume(len <= 2);
+        let mut s: &[u8] = &data[..len];
+        let r = MessageBufExt::try_get_discriminant_u8::<MessageKind>(&mut s);
+        if len == 0 {
+            assert!(matches!(r, Err(MessageDeserializeError::UnexpectedEoi)));
+        } else {
+            assert!(s.len() == len - 1);
+            match r {
+                Ok(k) => {
+                    // num_enum: the parsed kind converts back to the byte that was read
+                    let b: u8 = k.into();
+                    assert!(b == data[0]);
+                }
+                Err(e) => {
+                    assert!(matches!(e, MessageDeserializeError::InvalidSerialization));
+                }
+            }
+        }
+        // unknown kind bytes are rejected, known ones accepted: 63 kinds, numbered 0..=62
+        kani::cover!(len > 0 && r.is_err());
+        kani::cover!(r.is_ok());
+    }
+}
